@@ -125,6 +125,11 @@ func (ev *evaluator) execStmt(s ast.Stmt, st state, info *types.Info) []completi
 		ev.note("budget exhausted")
 		return []completion{{kind: cNormal, st: st}}
 	}
+	if ev.stmtHook != nil && s != nil {
+		if e := ev.stmtHook(s, st, info); e != nil {
+			st.tr = &trace{ev: *e, prev: st.tr}
+		}
+	}
 	switch s := s.(type) {
 	case nil:
 		return []completion{{kind: cNormal, st: st}}
